@@ -313,6 +313,27 @@ def run(c):
                                             "refused_then_allowed": refused_then_allowed}, {"case": x, "observed": y})
             elif any(a != "ban" for a in acts):
                 c.finding_or_violation({"kind": "uncounted-not-banned", "name": name}, {"case": x, "observed": y})
+    # ---- configurations built one after the other in one process: what a handler admits is decided by its own configuration alone
+    types = ["", "python3", "compiler"]
+    confs, queries = [], []
+    for k in range(5):
+        confs.append({"ptype": types[k % 3], "work": "/nonexistent-c18/job%d" % k, "arg0": "/nonexistent-c18/job%d/prog" % k,
+                      "add_read": ["/nonexistent-c18/data%d/in.txt" % k] if k % 2 == 0 else [], "add_write": ["/nonexistent-c18/data%d/out/" % k] if k != 3 else []})
+        queries += ["/nonexistent-c18/job%d/prog" % k, "/nonexistent-c18/job%d" % k, "/nonexistent-c18/job%d/other" % k, "/nonexistent-c18/data%d/in.txt" % k,
+                    "/nonexistent-c18/data%d/out/result" % k, "/nonexistent-c18/data%d/out" % k, "/nonexistent-c18/data%d" % k]
+    queries += ["/etc/ld.so.cache", "/dev/null", "/etc/shadow", "/usr/lib/x", "/tmp/t"]
+    def getconf(cfs):
+        return c.run_harness(exe, [{"id": 0, "kind": "getconf", "confs": cfs, "queries": queries}])[0]["answers"]
+    together = getconf(confs)
+    for k, cf in enumerate(confs):
+        alone = getconf([cf])[0]
+        c.count(("getconf", k), nontrivial=True, klass="getconf-history")
+        if together[k] != alone:
+            diff = [(q, a, b) for q, a, b in zip(queries, alone, together[k]) if a != b]
+            c.finding_or_violation({"kind": "getconf-history", "what": "a handler built after other configurations in the same process answers differently from the same configuration built alone",
+                                    "over_admits": any("allow" in b and "allow" not in a for _, a, b in diff)},
+                                   {"configurations": confs[:k + 1], "path": diff[0][0], "alone": diff[0][1], "in_history": diff[0][2]}, klass="getconf")
+            break
     c.sample({"kind": "counter", "case": kc[0], "observed": ko[0]})
 
     # grid cases are distinct by construction: add them to the measured count
